@@ -20,6 +20,9 @@ pub struct ShardCase {
     pub choices: Vec<u16>,
     pub delays: Vec<(u8, u16)>,
     pub controlled: bool,
+    /// a worker stalled for tens of milliseconds in one call: (call index, command occurrence, ms)
+    #[serde(default)]
+    pub stall: Option<(u8, u8, u8)>,
 }
 
 pub fn check_shards(c: &ShardCase) -> CaseResult {
@@ -34,7 +37,15 @@ pub fn check_shards(c: &ShardCase) -> CaseResult {
     let shards = c.shards;
     let mut offset = 0usize;
     let mut non_default_plans = 0usize;
+    let mut call_no = 0usize;
     let mut hook = |_k: usize, ndets: usize| -> Option<sched::Installed> {
+        call_no += 1;
+        if let Some((call, occ, ms)) = c.stall {
+            if call as usize + 1 == call_no && ndets > 0 {
+                // no gates in this call: one Distances command simply takes very long
+                return Some(sched::install(Plan { steps: vec![], delays: vec![("store.cmd.begin", occ as u32 % (ndets * shards) as u32, ms as u32 * 1000)], gate_timeout_ms: 1 }));
+            }
+        }
         if !c.controlled || ndets == 0 {
             return None;
         }
@@ -79,14 +90,15 @@ pub fn check_shards(c: &ShardCase) -> CaseResult {
     Ok(CaseOk::new(shards >= 2 && multi && achieved)
         .label(c.h.cfg.kind.name())
         .label_if(c.controlled, "controlled")
+        .label_if(c.stall.is_some(), "stalled_worker")
         .label_if(var.plan_expired > 0, "plan_deviation")
         .label_if(cut < base.records.len(), "cut_at_fragile_call")
         .label_if(achieved, "non_default_order_achieved"))
 }
 
 pub fn shard_case(kind: crate::trk::Kind) -> impl Strategy<Value = ShardCase> {
-    (history_opts(kind, true, 30, false), 1usize..=8, 1usize..=4, proptest::collection::vec(any::<u16>(), 64), proptest::collection::vec((0u8..16, 0u16..800), 0..3), proptest::bool::weighted(0.85))
-        .prop_map(|(h, shards, voting_shards, choices, delays, controlled)| ShardCase { h, shards, voting_shards, choices, delays, controlled })
+    (history_opts(kind, true, 30, false), 1usize..=8, 1usize..=4, proptest::collection::vec(any::<u16>(), 64), proptest::collection::vec((0u8..16, 0u16..800), 0..3), proptest::bool::weighted(0.85), prop_oneof![12 => Just(None), 1 => (1u8..12, 0u8..8, 70u8..130).prop_map(Some)])
+        .prop_map(|(h, shards, voting_shards, choices, delays, controlled, stall)| ShardCase { h, shards, voting_shards, choices, delays, controlled, stall })
 }
 
 pub fn run(env: &Env, rep: &Report) {
